@@ -206,6 +206,12 @@ def forms(r, c):
     ]
     for lab, t in other:
         yield lab, t, False, True, None
+    # words after the -c string are $0, $1 … of the inner command, whatever they look like
+    cl = lambda: "-" + "".join(r.pick(LETTERS) for _ in range(r.randint(1, 3)))  # noqa: E731
+    for lab, t in [("sh -c … -CLUSTER", "sh -c " + sq(cs) + " " + cl()), ("bash -c … _ -CLUSTER", "bash -c " + sq(cs) + " _ " + cl() + " " + cl()), ("sh -c … --long", "sh -c " + sq(cs) + " --" + r.pick(["norc", "posix", "login", "verbose", "noexec", "dry-run"])),
+                   ("env sh -c … -CLUSTER", "env A=1 sh -c " + sq(cs) + " " + cl()), ("xargs … -CLUSTER", "echo a | xargs " + cs + " " + cl()), ("find -exec … -CLUSTER", "find . -maxdepth 0 -exec " + cs + " " + cl() + " \\;"),
+                   ("env … -CLUSTER", "env " + cs + " " + cl()), ("timeout … -CLUSTER", "timeout 5 " + cs + " " + cl()), ("bash -CLUSTERc", "bash " + cl() + "c " + sq(cs))]:
+        yield lab, t, False, True, None
     nojail = [
         ("env -i", "env -i " + cs), ("fd -x", "fd -x " + cs), ("fd pat -X", "fd -e py -X " + cs), ("uv run", "uv run " + cs), ("uv run --with", "uv run --with x " + cs), ("arch", "arch -arm64 " + cs), ("arch -e", "arch -e A=1 " + cs),
         ("caffeinate", "caffeinate -i " + cs), ("caffeinate -t", "caffeinate -t 10 " + cs), ("script", "script -q /dev/null " + cs), ("tar --to-command", "tar -xf a.tar --to-command=" + sq(cs)), ("tar --to-command sep", "tar -xf a.tar --to-command " + sq(cs)),
